@@ -281,6 +281,9 @@ func haPermits(ha string) bool {
 
 // haStatePermits: the same for one member's answer.
 func haStatePermits(h HAState) bool {
+	if h.Enabled == "garbled" {
+		return false
+	}
 	if h.Enabled != "yes" {
 		return true
 	}
@@ -542,6 +545,9 @@ func (c Case) haStates() []HAState {
 		return []HAState{{"yes", "Active-Active", c.HA[3:]}}
 	case strings.HasPrefix(c.HA, "xx:"):
 		return []HAState{{"yes", "Active-Standby", c.HA[3:]}}
+	case strings.HasPrefix(c.HA, "bad:"):
+		// the member answers the HA question with HTTP 200 but not with a well-formed state (seeded change C06-W1)
+		return []HAState{{"garbled", c.HA[4:], ""}}
 	}
 	return []HAState{{Enabled: "no"}}
 }
@@ -550,7 +556,9 @@ func (c Case) haStates() []HAState {
 var haAll = []string{"off",
 	"ap:active", "ap:passive", "ap:suspended", "ap:initial", "ap:non-functional", "ap:tentative", "ap:unknown-word", "ap:active-primary",
 	"aa:active-primary", "aa:active-secondary", "aa:tentative", "aa:suspended", "aa:initial", "aa:non-functional", "aa:active", "aa:unknown-word",
-	"xx:active", "xx:active-primary"}
+	"xx:active", "xx:active-primary",
+	// an answer that cannot be read is not an answer "HA is off": error status, cut off, not XML, no state inside
+	"bad:error", "bad:trunc", "bad:notxml", "bad:emptygroup"}
 
 // memberHostnames: the host name each member of a PAN-OS pair has in its own configuration (its
 // entry of the name list); the member that may be configured reports what the case says.
@@ -974,6 +982,10 @@ func modelLine(c Case, compare bool, plan []string) string {
 			occ := strconv.Itoa(i)
 			if i == len(has)-1 {
 				occ = "*"
+			}
+			if h.Enabled == "garbled" {
+				add("L:type=op&cmd=<show><high-availability><state/></high-availability></show>", occ, "!:undecodable")
+				continue
 			}
 			add("L:type=op&cmd=<show><high-availability><state/></high-availability></show>", occ,
 				"H:"+h.Enabled+","+h.Mode+","+h.State)
